@@ -8,7 +8,7 @@ from . import common, prov
 
 NET = ['rq', 'ac', 'rj', 'pdataDone', 'pdataMore', 'pdataErr', 'rlrq', 'rlrp', 'abort', 'invalid']
 USER = ['rq', 'ac', 'rj', 'msg*0', 'msg*2', 'rlrq', 'rlrp', 'abort']
-ALPHABET = (['n=' + k for k in NET] + ['n=eof', 'n=idle', 'n=idle,t=1', 'n=idle,t=11', 'n=rq+abort', 'n=pdataDone+rlrq']
+ALPHABET = (['n=' + k for k in NET] + ['n=eof', 'n=part', 'n=idle', 'n=idle,t=1', 'n=idle,t=11', 'n=rq+abort', 'n=pdataDone+rlrq']
             + ['u=' + u for u in USER] + ['u=msg*1,f=1', 'n=rlrq,f=1', 'n=invalid,f=1'])
 
 # prefixes that bring the provider into each protocol state
@@ -38,7 +38,26 @@ BASES = {
 }
 
 
+def sanitize(ticks):
+    """after the head of a PDU that is never completed (`n=part`) the peer sends nothing more: later
+    network data is turned into silence (time, user and failure parts of the tick are kept)"""
+    out, dirty = [], False
+    for t in ticks:
+        if dirty and 'n=' in t:
+            kv = [x for x in t.split(',')]
+            kv = [('n=idle' if x.startswith('n=') and x not in ('n=idle', 'n=eof') else x) for x in kv]
+            t = ','.join(kv)
+        if 'n=part' in t:
+            dirty = True
+        out.append(t)
+    return out
+
+
 def histories(tier, rnd):
+    return sorted(set((r, n, tuple(sanitize(t))) for r, n, t in _histories(tier, rnd)))
+
+
+def _histories(tier, rnd):
     out = []
     depth = 2 if tier == 'quick' else 3
     for role, bases in BASES.items():
@@ -61,6 +80,7 @@ def histories(tier, rnd):
 
 def run_one(args):
     role, name, ticks = args
+    ticks = list(ticks)
     try:
         lines, info = prov.run_ticks(role, ticks)
     except Exception as e:  # pylint: disable=broad-except
@@ -111,6 +131,7 @@ def run(chk):
         results = pool.map(run_one, hs, chunksize=64)
     nb = 0
     for (role, name, ticks), m, (err, orc, lines, states) in zip(hs, model, results):
+        ticks = list(ticks)
         if err:
             raise common.Infra('harness error on %s %r: %s' % (role, ticks, orc))
         chk.case(role + ';'.join(ticks), len(set(states)) > 1,
